@@ -63,6 +63,10 @@ def showRes : Except Err Geom → String
 /-! classification of the undocumented normalisations an input triggers (for finding signatures) -/
 mutual
   partial def classes : G → List String
+    | .point s =>
+      if s.pts.any (fun p => isNaNBits p.x && isNaNBits p.y &&
+          !(p.x == nanBits && p.y == nanBits && (!s.hasZ || p.z == nanBits) && (!s.hasM || p.m == nanBits)))
+      then ["nan-point-payload"] else []
     | .polygon sh hs =>
       (if hs.any (fun h => !sameFlags sh h) then ["polygon-ring-dims-promoted"] else []) ++
       (if sh.pts.isEmpty && !hs.isEmpty then ["empty-polygon-holes-dropped"] else [])
@@ -115,7 +119,15 @@ def handle (stream : String) (line : String) : String :=
     | none => "bad-case"
   | "wkb-roundtrip-model" =>
     match parseCase toks with
-    | some (c, g) => showRes (read (write c g))
+    | some (c, g) =>
+      match read (write c g) with
+      | .ok g' =>
+        let back := showOut g'
+        if write c g' != write c g then back ++ " REWRITE-DIFFERS"
+        else match read (write { c with order := (match c.order with | .le => .be | .be => .le) } g) with
+          | .ok g'' => if showOut g'' == back then back else back ++ " OTHER-ORDER-DIFFERS"
+          | .error _ => back ++ " OTHER-ORDER-DIFFERS"
+      | .error _ => "err"
     | none => "bad-case"
   | "wkb-classify" =>
     match parseCase toks with
